@@ -3,7 +3,26 @@
    Part 1 (Layout): token-level printer `render`, the side condition `lex_safe` of X.680 clause 12,
                     the expected token list `expect` (contents and positions).
    Part 2: a count-free, text-level view `Rlc` of the line-structured tokenizer and one-step lemmas.
-   Part 3: gap items, block-comment bodies, text items; main induction; top-level theorems.        *)
+   Part 3: gap items, block-comment bodies, text items; main induction; top-level theorems.
+   Part 4: `positions` is intrinsic.  Part 5: every comment text has a structured body (`body_of`).
+
+   Gap grammar (what may stand at a token boundary), with the position rule  LF: line + 1, column := 0;
+   every other character (a lone CR included): column + 1  (`adv1`):
+     GSpace " " | GTab HT | GCrLf CR LF | GLf LF | GCr (a CR that is not followed by LF; if a LF does follow,
+     the two read as CR LF: same text, same result)
+     | GLine c (LF | CR LF)   "--" c line-end, c free of CR and LF
+     | GLineD c               "--" c "--"  (X.680 12.6.3: a line comment ended by the next pair of hyphens):
+                              c free of CR, LF, "--", not ending in '-'.  The crate does NOT end the comment
+                              there, it skips the rest of the line, so what follows on the same line must be
+                              invisible for both readings: blanks, further line comments, block comments that
+                              do not contain a line end -- up to a LF inside the same gap (`gap_ok`).
+     | GBlock body            "/*" body "*/", body = list of CChar c | CNl | CCrNl | COpen "/*" | CClose "*/",
+                              balanced; every character except LF is content (LF is CNl), including '*', '/',
+                              CR; the only condition is the one the left-to-right scan imposes: a content '*'
+                              is not directly followed by '/', a content '/' not directly followed by '*'
+                              (the next character being the next item's first one, or the '*' of the final
+                              "*/"); so "/*/" is an opening followed by '/', "/**/" is empty, "**/" is a '*'
+                              and the closing, "/* x /*/" is not closed.                                   *)
 From A1 Require Import Front.Lex.
 From Coq Require Import ZifyBool ZifyNat ZifyN Lia.
 Local Open Scope N_scope.
@@ -21,12 +40,15 @@ Inductive ptoken : Type := PText (s : list N) | PSep (c : N).
 (* content of a block comment: characters, line ends, nested opens / closes *)
 Inductive citem : Type := CChar (c : N) | CNl | CCrNl | COpen | CClose.
 
-(* the seven kinds of gap items: space, tab, CR LF, LF, line comment (ended by LF or CR LF),
-   block comment, nested block comment (a GBlock whose body has COpen/CClose) *)
+(* the kinds of gap items: space, tab, CR LF, LF, line comment ended by LF or CR LF,
+   block comment, nested block comment (a GBlock whose body has COpen/CClose),
+   lone CR, line comment ended by a second "--" *)
 Inductive gitem : Type :=
 | GSpace | GTab | GCrLf | GLf
 | GLine (c : list N) (crlf : bool)
-| GBlock (body : list citem).
+| GBlock (body : list citem)
+| GCr
+| GLineD (c : list N).
 Definition gap : Type := list gitem.
 
 Definition render_citem (i : citem) : list N :=
@@ -39,6 +61,8 @@ Definition render_gitem (i : gitem) : list N :=
   | GSpace => [32] | GTab => [9] | GCrLf => [13; 10] | GLf => [10]
   | GLine c crlf => 45 :: 45 :: c ++ (if crlf then [13; 10] else [10])
   | GBlock b => 47 :: 42 :: render_body b ++ [42; 47]
+  | GCr => [13]
+  | GLineD c => 45 :: 45 :: c ++ [45; 45]
   end.
 Definition render_gap (g : gap) : list N := flat_map render_gitem g.
 Definition render_tok (t : ptoken) : list N := match t with PText s => s | PSep c => [c] end.
@@ -91,15 +115,24 @@ Definition text_okb (s : list N) : bool :=
 Definition tok_okb (t : ptoken) : bool :=
   match t with PText s => text_okb s | PSep c => is_sep_char c end.
 
-Definition cchar_ok (c : N) : bool :=
-  negb (c =? 42) && negb (c =? 47) && negb (c =? 10) && negb (c =? 13).
+(* the character that follows an item of a comment body: the first one of the next item, or the '*'
+   of the "*/" that ends the comment *)
+Definition first_char (i : citem) : N :=
+  match i with CChar c => c | CNl => 10 | CCrNl => 13 | COpen => 47 | CClose => 42 end.
+Definition next_char (b : list citem) : N :=
+  match b with [] => 42 | i :: _ => first_char i end.
+
+(* a content character: anything but LF (that is CNl); a '*' must not be directly followed by '/' and a
+   '/' not by '*' (they would be the delimiters "*/" and "/*") *)
+Definition cchar_ok (c next : N) : bool :=
+  negb (c =? 10) && negb ((c =? 42) && (next =? 47)) && negb ((c =? 47) && (next =? 42)).
 
 (* body of a block comment read at nesting depth d (>= 1): balanced, never closes the outer comment,
-   nesting below the i32 limit of `nest_lvl`, characters other than '*', '/', CR, LF *)
+   nesting below the i32 limit of `nest_lvl` *)
 Fixpoint body_ok (d : Z) (b : list citem) : bool :=
   match b with
   | [] => (d =? 1)%Z
-  | CChar c :: b' => cchar_ok c && body_ok d b'
+  | CChar c :: b' => cchar_ok c (next_char b') && body_ok d b'
   | CNl :: b' => body_ok d b'
   | CCrNl :: b' => body_ok d b'
   | COpen :: b' => (d <? I32_MAX)%Z && body_ok (d + 1)%Z b'
@@ -108,16 +141,43 @@ Fixpoint body_ok (d : Z) (b : list citem) : bool :=
 
 Definition lchar_ok (c : N) : bool := negb (c =? 10) && negb (c =? 13).
 
+(* content of "--" c "--": no line end, no "--" inside, and c ++ "--" has its first "--" at the end *)
+Definition dcomment_ok (c : list N) : bool :=
+  forallb lchar_ok c && no_pair 45 45 c && negb (last c 0 =? 45).
+
 Definition gitem_okb (i : gitem) : bool :=
   match i with
   | GLine c _ => forallb lchar_ok c
   | GBlock b => body_ok 1 b
+  | GLineD c => dcomment_ok c
   | _ => true
   end.
-Definition gap_okb (g : gap) : bool := forallb gitem_okb g.
 
 Definition is_cnl (i : citem) : bool := match i with CNl | CCrNl => true | _ => false end.
 Definition has_nl (b : list citem) : bool := existsb is_cnl b.
+
+(* a gap, read from left to right; dd = "a `--` c `--` comment stands earlier on the current line": the
+   crate skips the rest of that line, X.680 12.6.3 does not, so only items that are invisible for both
+   may follow on it (blanks, comments without a line end), and the line must end inside the gap *)
+Fixpoint gap_ok (dd : bool) (g : gap) : bool :=
+  match g with
+  | [] => negb dd
+  | i :: g' =>
+      gitem_okb i &&
+      match i with
+      | GCrLf | GLf | GLine _ _ => gap_ok false g'
+      | GLineD _ => gap_ok true g'
+      | GBlock b => (negb dd || negb (has_nl b)) && gap_ok dd g'
+      | GSpace | GTab | GCr => gap_ok dd g'
+      end
+  end.
+Definition gap_okb (g : gap) : bool := gap_ok false g.
+
+(* the X.680-faithful subclass: also a line comment ended by a line end has no "--" inside (with one
+   inside, X.680 12.6.3 ends the comment there; the crate skips the whole line, see Props/C13.v) *)
+Definition x680_item (i : gitem) : bool :=
+  match i with GLine c _ => no_pair 45 45 c | _ => true end.
+Definition x680_lines (gs : list gap) : bool := forallb (forallb x680_item) gs.
 (* every gap item separates: white-space, line ends, line comments and (since repair 58b7ab0 of the
    tokenizer) block comments all push the pending token *)
 Definition iflush (i : gitem) : bool := true.
@@ -318,15 +378,21 @@ Proof. reflexivity. Qed.
 Lemma adv1_other : forall lc c, c <> 10 -> adv1 lc c = (fst lc, snd lc + 1).
 Proof. intros. unfold adv1. now replace (c =? 10) with false by lia. Qed.
 
-Lemma Rlc_step1 : forall m lc p n c t p' n' out, c <> 10 -> c <> 13 ->
+(* one character that stays in its line: anything but LF, and a CR only if no LF follows *)
+Lemma Rlc_step1' : forall m lc p n c t p' n' out, c <> 10 -> (c = 13 -> hd_error t <> Some 10) ->
   step m (is_last t) (fst lc) (snd lc) p n c (peek t) = Continue false p' n' out ->
   Rlc m lc p n (c :: t) = emit out (Rlc m (adv1 lc c) p' n' t).
 Proof.
   intros m lc p n c t p' n' out H10 H13 Hs. unfold Rlc.
-  rewrite split_cons' by assumption. cbn [fst snd].
+  rewrite split_cons by assumption. cbn [fst snd].
   rewrite line_loop_cons. unfold is_last, peek in Hs. rewrite Hs.
   rewrite fin_emit. rewrite adv1_other by assumption. reflexivity.
 Qed.
+
+Lemma Rlc_step1 : forall m lc p n c t p' n' out, c <> 10 -> c <> 13 ->
+  step m (is_last t) (fst lc) (snd lc) p n c (peek t) = Continue false p' n' out ->
+  Rlc m lc p n (c :: t) = emit out (Rlc m (adv1 lc c) p' n' t).
+Proof. intros. apply Rlc_step1'; [assumption|contradiction|assumption]. Qed.
 
 Lemma Rlc_step2 : forall m lc p n c c2 t p' n' out, c <> 10 -> c <> 13 -> c2 <> 10 -> c2 <> 13 ->
   (forall ll, step m ll (fst lc) (snd lc) p n c (Some c2) = Continue true p' n' out) ->
@@ -355,6 +421,62 @@ Qed.
 
 Lemma Rlc_nil : forall m lc p n, Rlc m lc p n [] = Ok (None, n, push_opt p).
 Proof. intros. unfold Rlc. cbn. now rewrite app_nil_r. Qed.
+
+(* ---- the rest of a line is skipped after "--" ---- *)
+Lemma step_dashdash_early : forall m ll line col p,
+  step m ll line col p 0 45 (Some 45) = Break.
+Proof. reflexivity. Qed.
+
+Definition nolf (c : N) : bool := negb (c =? 10).
+
+Lemma lchar_nolf : forall a, forallb lchar_ok a = true -> forallb nolf a = true.
+Proof.
+  induction a as [|c a IH]; intros H; [reflexivity|].
+  cbn [forallb] in *. apply andb_prop in H as [Hc Ha]. unfold lchar_ok in Hc. unfold nolf at 1.
+  rewrite IH by assumption. apply andb_true_intro; split; [lia|reflexivity].
+Qed.
+
+(* str::lines: a text without LF in front of a LF is (the beginning of) one line, whatever CRs it has *)
+Lemma split_skip : forall a t, forallb nolf a = true ->
+  exists a', split_lines (a ++ 10 :: t) = (a', lines_of t).
+Proof.
+  induction a as [|c a IH]; intros t H.
+  - exists []. apply split_nl.
+  - cbn [forallb] in H. apply andb_prop in H as [Hc Ha]. unfold nolf in Hc.
+    destruct (IH t Ha) as [a' E]. cbn [app].
+    destruct a as [|c2 a2].
+    + cbn [app] in *. destruct (N.eq_dec c 13) as [->|H13].
+      * exists []. apply split_crnl.
+      * exists [c]. rewrite split_cons' by lia. rewrite split_nl. reflexivity.
+    + cbn [forallb] in Ha. apply andb_prop in Ha as [Hc2 _]. unfold nolf in Hc2.
+      exists (c :: a'). rewrite split_cons; [|lia|].
+      * rewrite E. reflexivity.
+      * intros _. cbn [app hd_error]. intros [= E2]. lia.
+Qed.
+
+Lemma Rlc_skip : forall m lc p a t, forallb nolf a = true ->
+  Rlc m lc p 0 (45 :: 45 :: a ++ 10 :: t) = emit (push_opt p) (Rlc m (fst lc + 1, 0) None 0 t).
+Proof.
+  intros m lc p a t H. destruct (split_skip a t H) as [a' E]. unfold Rlc at 1.
+  rewrite (split_cons' 45) by lia. rewrite (split_cons' 45) by lia. rewrite E. cbn [fst snd].
+  rewrite line_loop_cons. cbn [hd_error]. rewrite step_dashdash_early. cbn [fin app].
+  now rewrite lines_loop2_Rlc.
+Qed.
+
+(* ---- a CR that is not the first half of CR LF is one more character of its line ---- *)
+Lemma step_cr0 : forall m ll line col p pk,
+  step m ll line col p 0 13 pk = Continue false None 0 (push_opt p).
+Proof. reflexivity. Qed.
+
+Lemma Rlc_cr0 : forall m lc p t,
+  Rlc m lc p 0 (13 :: t) = emit (push_opt p) (Rlc m (adv1 lc 13) None 0 t).
+Proof.
+  intros m lc p t. destruct t as [|c2 t2].
+  - apply Rlc_step1'; [lia|discriminate|apply step_cr0].
+  - destruct (N.eq_dec c2 10) as [->|H2].
+    + rewrite Rlc_crnl, Rlc_nl. rewrite emit_emit. cbn [push_opt]. now rewrite app_nil_r.
+    + apply Rlc_step1'; [lia| |apply step_cr0]. intros _. cbn [hd_error]. intros [= E]. lia.
+Qed.
 
 (* ================================================================== *)
 (* Part 3a: what one iteration does, per kind of character             *)
@@ -392,6 +514,22 @@ Proof.
   replace (0 <? d)%Z with true by lia.
   replace (c =? 42) with false by lia. replace (c =? 47) with false by lia.
   now rewrite Hp.
+Qed.
+
+(* a character that is comment content: a '*' not in front of '/', a '/' not in front of '*', or any
+   other character that is not the last one of an unterminated text *)
+Lemma step_c_plain : forall m ll line col p d c pk, (1 <= d)%Z ->
+  (c =? 42) && opt_eqb pk 47 = false -> (c =? 47) && opt_eqb pk 42 = false ->
+  is_none pk && ll = false ->
+  step m ll line col p d c pk = Continue false p d [].
+Proof.
+  intros m ll line col p d c pk Hd H1 H2 Hp. unfold step.
+  replace (0 <? d)%Z with true by lia.
+  destruct (c =? 42) eqn:E1.
+  - cbn [andb] in H1. rewrite H1. reflexivity.
+  - destruct (c =? 47) eqn:E2.
+    + cbn [andb] in H2. rewrite H2. reflexivity.
+    + rewrite Hp. reflexivity.
 Qed.
 
 Lemma sep_char_facts : forall c, is_sep_char c = true ->
@@ -479,24 +617,88 @@ Proof.
     rewrite IH by assumption. rewrite adv1_other by lia. cbn [fst snd length]. f_equal. lia.
 Qed.
 
-(* body of a block comment *)
-Lemma body_cont : forall b d t, body_ok d b = true ->
-  is_none (peek (render_body b ++ 42 :: 47 :: t)) && is_last (render_body b ++ 42 :: 47 :: t) = false.
+Lemma advance_nolf : forall a lc, forallb nolf a = true ->
+  advance lc a = (fst lc, snd lc + N.of_nat (length a)).
 Proof.
-  intros [|i b] d t H.
-  - cbn [render_body flat_map app]. now rewrite peek_cons by lia.
-  - cbn [render_body flat_map]. fold (render_body b). rewrite <- app_assoc.
-    destruct i as [c| | | |]; cbn [render_citem app].
-    + cbn [body_ok] in H. apply andb_prop in H as [Hc _]. unfold cchar_ok in Hc.
-      now rewrite peek_cons by lia.
-    + unfold is_last. rewrite split_nl. cbn [snd].
-      rewrite lines_of_cons_not_nil; [apply andb_false_r|].
-      intro E. symmetry in E. now apply app_cons_not_nil in E.
-    + unfold is_last. rewrite split_crnl. cbn [snd].
-      rewrite lines_of_cons_not_nil; [apply andb_false_r|].
-      intro E. symmetry in E. now apply app_cons_not_nil in E.
-    + now rewrite peek_cons by lia.
-    + now rewrite peek_cons by lia.
+  induction a as [|c a IH]; intros lc H.
+  - cbn. destruct lc; cbn. f_equal. lia.
+  - cbn [forallb] in H. apply andb_prop in H as [Hc Ha]. unfold nolf in Hc.
+    change (advance lc (c :: a)) with (advance (adv1 lc c) a).
+    rewrite IH by assumption. rewrite adv1_other by lia. cbn [fst snd length]. f_equal. lia.
+Qed.
+
+Lemma advance_skip : forall a lc, forallb nolf a = true -> advance lc (a ++ [10]) = (fst lc + 1, 0).
+Proof. intros a lc H. rewrite advance_app. rewrite (advance_nolf a) by assumption. reflexivity. Qed.
+
+Lemma out_if_none : forall b, out_if b None = [].
+Proof. intros [|]; reflexivity. Qed.
+Lemma flush_if_none : forall b, flush_if b None = None.
+Proof. intros [|]; reflexivity. Qed.
+
+(* ---- body of a block comment ---- *)
+
+(* the sanctioned panic ("unclosed comment blocks") needs a character that is the last one of the last
+   line; a text that goes on is not in that situation *)
+Definition cont_ok (s : list N) : bool := negb (is_none (peek s) && is_last s).
+
+Lemma cont_ok_intro : forall s, s <> [] -> s <> [10] -> s <> [13; 10] -> cont_ok s = true.
+Proof.
+  intros [|c s] H0 H1 H2; [congruence|]. unfold cont_ok, peek, is_last.
+  destruct (N.eq_dec c 10) as [->|H10].
+  - rewrite split_nl. cbn [fst snd hd_error is_none andb].
+    rewrite lines_of_cons_not_nil; [reflexivity|]. intros ->. now apply H1.
+  - destruct s as [|c2 s2].
+    + cbn [split_lines]. replace (c =? 10) with false by lia. reflexivity.
+    + destruct (N.eq_dec c 13) as [->|H13].
+      * destruct (N.eq_dec c2 10) as [->|H210].
+        -- rewrite split_crnl. cbn [fst snd hd_error is_none andb].
+           rewrite lines_of_cons_not_nil; [reflexivity|]. intros ->. now apply H2.
+        -- rewrite split_cons; [reflexivity|lia|]. intros _. cbn [hd_error]. intros [= E]. lia.
+      * rewrite split_cons' by assumption. reflexivity.
+Qed.
+
+Lemma body_cont : forall a t,
+  is_none (peek (a ++ 42 :: 47 :: t)) && is_last (a ++ 42 :: 47 :: t) = false.
+Proof.
+  intros a t. apply negb_true_iff. apply cont_ok_intro.
+  - intro E. symmetry in E. now apply app_cons_not_nil in E.
+  - intro E. destruct a as [|x [|y [|z a]]]; cbn [app] in E; discriminate E.
+  - intro E. destruct a as [|x [|y [|z a]]]; cbn [app] in E; discriminate E.
+Qed.
+
+Lemma render_citem_hd : forall i, exists r, render_citem i = first_char i :: r.
+Proof. intros [c| | | |]; cbn; eauto. Qed.
+
+Lemma hd_body : forall b t, hd_error (render_body b ++ 42 :: 47 :: t) = Some (next_char b).
+Proof.
+  intros [|i b] t; [reflexivity|]. cbn [render_body flat_map next_char].
+  destruct (render_citem_hd i) as [r ->]. reflexivity.
+Qed.
+
+(* a content character of a comment at depth d *)
+Lemma Rlc_c_char : forall m lc p d c t, (1 <= d)%Z -> c <> 10 ->
+  (c = 42 -> hd_error t <> Some 47) -> (c = 47 -> hd_error t <> Some 42) ->
+  is_none (peek t) && is_last t = false ->
+  Rlc m lc p d (c :: t) = Rlc m (adv1 lc c) p d t.
+Proof.
+  intros m lc p d c t Hd H10 Hs1 Hs2 Hc.
+  assert (St : step m (is_last t) (fst lc) (snd lc) p d c (peek t) = Continue false p d []).
+  { apply step_c_plain; [assumption| | |assumption].
+    - destruct (c =? 42) eqn:E; [|reflexivity]. cbn [andb].
+      destruct (opt_eqb (peek t) 47) eqn:E2; [|reflexivity].
+      apply peek_sub in E2. exfalso. apply Hs1; [lia|].
+      destruct (hd_error t) as [x|]; cbn [opt_eqb] in E2; [|discriminate]. f_equal. lia.
+    - destruct (c =? 47) eqn:E; [|reflexivity]. cbn [andb].
+      destruct (opt_eqb (peek t) 42) eqn:E2; [|reflexivity].
+      apply peek_sub in E2. exfalso. apply Hs2; [lia|].
+      destruct (hd_error t) as [x|]; cbn [opt_eqb] in E2; [|discriminate]. f_equal. lia. }
+  destruct (N.eq_dec c 13) as [->|H13].
+  - destruct t as [|c2 t2]; [discriminate Hc|].
+    destruct (N.eq_dec c2 10) as [->|H2].
+    + rewrite Rlc_crnl, Rlc_nl. reflexivity.
+    + rewrite (Rlc_step1' m lc p d 13 _ p d []); [now rewrite emit_nil|lia| |exact St].
+      intros _. cbn [hd_error]. intros [= E]. lia.
+  - rewrite (Rlc_step1 m lc p d c _ p d []); [now rewrite emit_nil|assumption|assumption|exact St].
 Qed.
 
 Lemma scan_body : forall m b d lc p t, (1 <= d)%Z -> body_ok d b = true ->
@@ -513,10 +715,14 @@ Proof.
   - cbn [render_body flat_map]. fold (render_body b). rewrite <- !app_assoc.
     rewrite advance_app.
     destruct i as [c| | | |]; cbn [render_citem app body_ok] in *.
-    + apply andb_prop in H as [Hc Hb]. pose proof Hc as Hc'. unfold cchar_ok in Hc'.
-      rewrite (Rlc_step1 m lc p d c _ p d []); try lia.
-      * rewrite emit_nil. rewrite (IH d) by assumption. reflexivity.
-      * apply step_c_char; try lia. eapply body_cont; eassumption.
+    + apply andb_prop in H as [Hc Hb]. unfold cchar_ok in Hc.
+      rewrite Rlc_c_char; try assumption.
+      * rewrite (IH d) by assumption. reflexivity.
+      * lia.
+      * intros ->. rewrite hd_body. intros [= E]. rewrite E in Hc. discriminate Hc.
+      * intros ->. rewrite hd_body. intros [= E]. rewrite E in Hc.
+        rewrite andb_false_r in Hc. discriminate Hc.
+      * apply body_cont.
     + rewrite Rlc_nl. rewrite (IH d) by assumption.
       cbn [has_nl existsb is_cnl orb out_if flush_if].
       destruct (has_nl b); cbn [out_if flush_if push_opt]; now rewrite emit_nil.
@@ -533,12 +739,30 @@ Proof.
       * intros ll. apply step_c_close; lia.
 Qed.
 
-Lemma scan_gitem : forall m it lc p t, gitem_okb it = true ->
+(* a body without CNl / CCrNl has no LF at all *)
+Lemma body_nolf : forall b d, has_nl b = false -> body_ok d b = true ->
+  forallb nolf (render_body b) = true.
+Proof.
+  induction b as [|i b IH]; intros d Hn H; [reflexivity|].
+  cbn [has_nl existsb] in Hn. apply orb_false_elim in Hn as [Hi Hn].
+  cbn [render_body flat_map]. fold (render_body b). rewrite forallb_app.
+  destruct i as [c| | | |]; cbn [is_cnl] in Hi; try discriminate; cbn [body_ok render_citem] in *.
+  - apply andb_prop in H as [Hc Hb]. unfold cchar_ok in Hc.
+    rewrite (IH d) by assumption. cbn [forallb]. unfold nolf. rewrite !andb_true_r. lia.
+  - apply andb_prop in H as [Hc Hb]. rewrite (IH (d + 1)%Z) by assumption. reflexivity.
+  - apply andb_prop in H as [Hc Hb]. rewrite (IH (d - 1)%Z) by assumption. reflexivity.
+Qed.
+
+Definition is_dd (i : gitem) : bool := match i with GLineD _ => true | _ => false end.
+
+(* every item except "--" c "--" is read by the crate as what it is, whatever follows *)
+Lemma scan_gitem : forall m it lc p t, gitem_okb it = true -> is_dd it = false ->
   Rlc m lc p 0 (render_gitem it ++ t)
   = emit (out_if (iflush it) p)
          (Rlc m (advance lc (render_gitem it)) (flush_if (iflush it) p) 0 t).
 Proof.
-  intros m it lc p t H. destruct it as [| | | |c crlf|b]; cbn [render_gitem app iflush out_if flush_if].
+  intros m it lc p t H Hd.
+  destruct it as [| | | |c crlf|b| |c]; cbn [render_gitem app iflush out_if flush_if]; [| | | | | | |discriminate Hd].
   - rewrite (Rlc_step1 m lc p 0%Z 32 t None 0%Z (push_opt p)); try lia; [reflexivity|apply step_space].
   - rewrite (Rlc_step1 m lc p 0%Z 9 t None 0%Z (push_opt p)); try lia; [reflexivity|apply step_tab].
   - now rewrite Rlc_crnl.
@@ -567,27 +791,112 @@ Proof.
     2:{ intros ll. apply step_open0. }
     rewrite <- app_assoc. cbn [app].
     rewrite (scan_body m b 1%Z) by (assumption || lia).
-    replace (out_if (has_nl b) None) with (@nil token) by (destruct (has_nl b); reflexivity).
-    replace (flush_if (has_nl b) None) with (@None token) by (destruct (has_nl b); reflexivity).
-    rewrite emit_nil. reflexivity.
+    rewrite out_if_none, flush_if_none, emit_nil. reflexivity.
+  - (* lone CR *)
+    apply Rlc_cr0.
 Qed.
 
 Lemma gflush_cons : forall it g, gflush (it :: g) = iflush it || gflush g.
 Proof. reflexivity. Qed.
 
+(* the characters of an item that neither ends the line nor contains a line end *)
+Lemma same_line_nolf : forall it, gitem_okb it = true ->
+  match it with
+  | GSpace | GTab | GCr | GLineD _ => True
+  | GBlock b => has_nl b = false
+  | _ => False
+  end -> forallb nolf (render_gitem it) = true.
+Proof.
+  intros [| | | |c crlf|b| |c] H Hk; try contradiction; try reflexivity; cbn [gitem_okb render_gitem] in *.
+  - change (47 :: 42 :: render_body b ++ [42; 47]) with ([47; 42] ++ render_body b ++ [42; 47]).
+    rewrite !forallb_app. rewrite (body_nolf b 1%Z) by assumption. reflexivity.
+  - unfold dcomment_ok in H. apply andb_prop in H as [H _]. apply andb_prop in H as [H _].
+    change (45 :: 45 :: c ++ [45; 45]) with ([45; 45] ++ c ++ [45; 45]).
+    rewrite !forallb_app. rewrite (lchar_nolf c) by assumption. reflexivity.
+Qed.
+
+(* the two readings of a gap at once: from a place where the crate tokenizes (dd = false), and from a
+   place behind "--" pre on a line that the crate is skipping (dd = true) *)
+Lemma scan_gap_both : forall m g,
+  (forall lc p t, gap_ok false g = true ->
+     Rlc m lc p 0 (render_gap g ++ t)
+     = emit (out_if (gflush g) p)
+            (Rlc m (advance lc (render_gap g)) (flush_if (gflush g) p) 0 t))
+  /\
+  (forall lc p pre t, gap_ok true g = true -> forallb nolf pre = true ->
+     Rlc m lc p 0 (45 :: 45 :: pre ++ render_gap g ++ t)
+     = emit (push_opt p) (Rlc m (advance lc (45 :: 45 :: pre ++ render_gap g)) None 0 t)).
+Proof.
+  intros m. induction g as [|it g [IH0 IH1]]; split.
+  - intros lc p t _. cbn. now rewrite emit_nil.
+  - intros lc p pre t H. discriminate H.
+  - (* the crate is tokenizing *)
+    intros lc p t H. cbn [gap_ok] in H. apply andb_prop in H as [Hi Hg].
+    cbn [render_gap flat_map]. fold (render_gap g). rewrite <- app_assoc. rewrite gflush_cons.
+    destruct (is_dd it) eqn:Edd.
+    + destruct it as [| | | |c crlf|b| |c]; try discriminate Edd.
+      cbn [render_gitem iflush orb out_if flush_if].
+      replace ((45 :: 45 :: c ++ [45; 45]) ++ render_gap g ++ t)
+        with (45 :: 45 :: (c ++ [45; 45]) ++ render_gap g ++ t)
+        by (cbn [app]; rewrite <- !app_assoc; reflexivity).
+      rewrite IH1; [|assumption|].
+      * cbn [app]. rewrite <- !app_assoc. reflexivity.
+      * pose proof (same_line_nolf (GLineD c) Hi I) as Hn. cbn [render_gitem forallb] in Hn.
+        exact Hn.
+    + rewrite scan_gitem by assumption.
+      assert (Hg' : gap_ok false g = true).
+      { destruct it as [| | | |c crlf|b| |c]; try discriminate Edd; exact Hg. }
+      rewrite IH0 by assumption.
+      rewrite emit_emit. rewrite advance_app.
+      now rewrite out_if_compose, flush_if_compose.
+  - (* the crate is skipping the rest of the line *)
+    intros lc p pre t H Hpre. cbn [gap_ok] in H. apply andb_prop in H as [Hi Hg].
+    cbn [render_gap flat_map]. fold (render_gap g).
+    assert (Same : forall x, forallb nolf x = true -> gap_ok true g = true ->
+      Rlc m lc p 0 (45 :: 45 :: pre ++ (x ++ render_gap g) ++ t)
+      = emit (push_opt p) (Rlc m (advance lc (45 :: 45 :: pre ++ x ++ render_gap g)) None 0 t)).
+    { intros x Hx Hgt. specialize (IH1 lc p (pre ++ x) t Hgt).
+      rewrite forallb_app, Hpre, Hx in IH1. specialize (IH1 eq_refl).
+      rewrite <- !app_assoc in IH1. rewrite <- !app_assoc. exact IH1. }
+    assert (Ends : forall a, forallb nolf a = true -> gap_ok false g = true ->
+      Rlc m lc p 0 (45 :: 45 :: pre ++ ((a ++ [10]) ++ render_gap g) ++ t)
+      = emit (push_opt p) (Rlc m (advance lc (45 :: 45 :: pre ++ (a ++ [10]) ++ render_gap g)) None 0 t)).
+    { intros a Ha Hgf.
+      replace (45 :: 45 :: pre ++ ((a ++ [10]) ++ render_gap g) ++ t)
+        with (45 :: 45 :: (pre ++ a) ++ 10 :: render_gap g ++ t)
+        by (rewrite <- !app_assoc; reflexivity).
+      rewrite Rlc_skip by (rewrite forallb_app, Hpre, Ha; reflexivity).
+      rewrite (IH0 _ None t Hgf). rewrite out_if_none, flush_if_none, emit_nil.
+      replace (45 :: 45 :: pre ++ (a ++ [10]) ++ render_gap g)
+        with (((45 :: 45 :: pre ++ a) ++ [10]) ++ render_gap g)
+        by (cbn [app]; rewrite <- !app_assoc; reflexivity).
+      rewrite (advance_app lc). rewrite advance_skip; [reflexivity|].
+      change (45 :: 45 :: pre ++ a) with ([45; 45] ++ pre ++ a).
+      rewrite !forallb_app, Hpre, Ha. reflexivity. }
+    destruct it as [| | | |c crlf|b| |c]; cbn [render_gitem].
+    + apply (Same [32]); [reflexivity|exact Hg].
+    + apply (Same [9]); [reflexivity|exact Hg].
+    + apply (Ends [13]); [reflexivity|exact Hg].
+    + apply (Ends []); [reflexivity|exact Hg].
+    + cbn [gitem_okb] in Hi. apply lchar_nolf in Hi. destruct crlf.
+      * replace (45 :: 45 :: c ++ [13; 10]) with ((45 :: 45 :: c ++ [13]) ++ [10])
+          by (cbn [app]; rewrite <- app_assoc; reflexivity).
+        apply Ends; [|exact Hg].
+        change (45 :: 45 :: c ++ [13]) with ([45; 45] ++ c ++ [13]).
+        rewrite !forallb_app, Hi. reflexivity.
+      * change (45 :: 45 :: c ++ [10]) with ((45 :: 45 :: c) ++ [10]).
+        apply Ends; [|exact Hg]. cbn [forallb]. rewrite Hi. reflexivity.
+    + cbn [negb orb] in Hg. apply andb_prop in Hg as [Hnl Hg]. apply negb_true_iff in Hnl.
+      apply Same; [|exact Hg]. apply (same_line_nolf (GBlock b)); assumption.
+    + apply (Same [13]); [reflexivity|exact Hg].
+    + apply Same; [|exact Hg]. apply (same_line_nolf (GLineD c)); [assumption|exact I].
+Qed.
+
 Lemma scan_gap : forall m g lc p t, gap_okb g = true ->
   Rlc m lc p 0 (render_gap g ++ t)
   = emit (out_if (gflush g) p)
          (Rlc m (advance lc (render_gap g)) (flush_if (gflush g) p) 0 t).
-Proof.
-  intros m. induction g as [|it g IH]; intros lc p t H.
-  - cbn. now rewrite emit_nil.
-  - cbn [gap_okb forallb] in H. apply andb_prop in H as [Hi Hg].
-    cbn [render_gap flat_map]. fold (render_gap g). rewrite <- app_assoc.
-    rewrite scan_gitem by assumption. rewrite IH by assumption.
-    rewrite emit_emit. rewrite advance_app. rewrite gflush_cons.
-    now rewrite out_if_compose, flush_if_compose.
-Qed.
+Proof. intros m g lc p t H. now apply (proj1 (scan_gap_both m g)). Qed.
 
 (* ================================================================== *)
 (* Part 3c: text items                                                 *)
@@ -684,7 +993,7 @@ Definition compat (p : option token) (ts : list ptoken) : Prop :=
   match ts with t :: _ => is_text t = true -> not_text p | [] => True end.
 
 Lemma hd_gitem : forall it t, opt_eqb (hd_error (render_gitem it ++ t)) 42 = false.
-Proof. intros [| | | |c crlf|b] t; reflexivity. Qed.
+Proof. intros [| | | |c crlf|b| |c] t; reflexivity. Qed.
 
 Lemma hd_after : forall g ts gs, forallb tok_okb ts = true ->
   (g = [] -> match ts with t2 :: _ => is_text t2 = false | [] => True end) ->
@@ -828,4 +1137,162 @@ Proof.
   - specialize (IH gs (pre ++ render_tok t ++ render_gap g)).
     rewrite <- !app_assoc in IH. rewrite !app_length, Nat.add_assoc in IH.
     apply IH. cbn [length] in Hl. congruence.
+Qed.
+
+(* ================================================================== *)
+(* Part 5: the body grammar is no restriction on comment texts         *)
+(* ================================================================== *)
+
+(* the structure of a comment text, read from left to right as X.680 12.6.4 / the crate do: "/*" opens,
+   "*/" closes, everything else is content *)
+Fixpoint body_of (s : list N) : list citem :=
+  match s with
+  | [] => []
+  | c :: t =>
+      match t with
+      | c2 :: t2 =>
+          if (c =? 47) && (c2 =? 42) then COpen :: body_of t2
+          else if (c =? 42) && (c2 =? 47) then CClose :: body_of t2
+          else if (c =? 13) && (c2 =? 10) then CCrNl :: body_of t2
+          else if c =? 10 then CNl :: body_of t
+          else CChar c :: body_of t
+      | [] => if c =? 10 then [CNl] else [CChar c]
+      end
+  end.
+
+(* depth conditions only *)
+Fixpoint balanced (d : Z) (b : list citem) : bool :=
+  match b with
+  | [] => (d =? 1)%Z
+  | COpen :: b' => (d <? I32_MAX)%Z && balanced (d + 1)%Z b'
+  | CClose :: b' => (2 <=? d)%Z && balanced (d - 1)%Z b'
+  | _ :: b' => balanced d b'
+  end.
+
+Lemma body_of_cons2 : forall c c2 t2,
+  body_of (c :: c2 :: t2) =
+    if (c =? 47) && (c2 =? 42) then COpen :: body_of t2
+    else if (c =? 42) && (c2 =? 47) then CClose :: body_of t2
+    else if (c =? 13) && (c2 =? 10) then CCrNl :: body_of t2
+    else if c =? 10 then CNl :: body_of (c2 :: t2)
+    else CChar c :: body_of (c2 :: t2).
+Proof. reflexivity. Qed.
+
+Lemma render_body_of_len : forall n s, (length s <= n)%nat -> render_body (body_of s) = s.
+Proof.
+  induction n as [|n IH]; intros s Hl.
+  - destruct s; [reflexivity|cbn in Hl; lia].
+  - destruct s as [|c [|c2 t2]]; [reflexivity| |].
+    + cbn [body_of]. destruct (c =? 10) eqn:E; cbn; [f_equal; lia|reflexivity].
+    + rewrite body_of_cons2. cbn [length] in Hl.
+      destruct ((c =? 47) && (c2 =? 42)) eqn:E1; [|destruct ((c =? 42) && (c2 =? 47)) eqn:E2;
+        [|destruct ((c =? 13) && (c2 =? 10)) eqn:E3; [|destruct (c =? 10) eqn:E4]]];
+        cbn [render_body flat_map render_citem app]; fold (render_body (body_of t2));
+        fold (render_body (body_of (c2 :: t2))); rewrite IH by (cbn [length]; lia).
+      * apply andb_prop in E1 as [A B]. f_equal; [lia|f_equal; lia].
+      * apply andb_prop in E2 as [A B]. f_equal; [lia|f_equal; lia].
+      * apply andb_prop in E3 as [A B]. f_equal; [lia|f_equal; lia].
+      * f_equal; lia.
+      * reflexivity.
+Qed.
+
+(* every text is the rendering of its structure *)
+Theorem render_body_of : forall s, render_body (body_of s) = s.
+Proof. intros s. now apply (render_body_of_len (length s)). Qed.
+
+Lemma next_body_of : forall c t, next_char (body_of (c :: t)) = c.
+Proof.
+  intros c [|c2 t2].
+  - cbn [body_of]. destruct (c =? 10) eqn:E; cbn; lia.
+  - rewrite body_of_cons2.
+    destruct ((c =? 47) && (c2 =? 42)) eqn:E1; [|destruct ((c =? 42) && (c2 =? 47)) eqn:E2;
+      [|destruct ((c =? 13) && (c2 =? 10)) eqn:E3; [|destruct (c =? 10) eqn:E4]]]; cbn [next_char first_char]; lia.
+Qed.
+
+Lemma last_tail : forall (i : citem) l, last (i :: l) CNl <> CChar 47 -> last l CNl <> CChar 47.
+Proof. intros i [|j l] H; [discriminate|exact H]. Qed.
+
+Lemma body_of_ok_len : forall n s d, (length s <= n)%nat ->
+  balanced d (body_of s) = true -> last (body_of s) CNl <> CChar 47 -> body_ok d (body_of s) = true.
+Proof.
+  induction n as [|n IH]; intros s d Hl Hb Hlast.
+  - destruct s; [exact Hb|cbn in Hl; lia].
+  - destruct s as [|c [|c2 t2]]; [exact Hb| |].
+    + cbn [body_of] in *. destruct (c =? 10) eqn:E; cbn [body_ok balanced next_char last] in *; [exact Hb|].
+      rewrite Hb. unfold cchar_ok.
+      assert (c <> 47) by (intros ->; now apply Hlast). lia.
+    + rewrite body_of_cons2 in *. cbn [length] in Hl.
+      destruct ((c =? 47) && (c2 =? 42)) eqn:E1; [|destruct ((c =? 42) && (c2 =? 47)) eqn:E2;
+        [|destruct ((c =? 13) && (c2 =? 10)) eqn:E3; [|destruct (c =? 10) eqn:E4]]];
+        apply last_tail in Hlast; cbn [body_ok balanced] in *.
+      * apply andb_prop in Hb as [H1 H2]. rewrite H1. apply IH; [lia|assumption|assumption].
+      * apply andb_prop in Hb as [H1 H2]. rewrite H1. apply IH; [lia|assumption|assumption].
+      * apply IH; [lia|assumption|assumption].
+      * apply IH; [cbn [length]; lia|assumption|assumption].
+      * rewrite next_body_of. rewrite IH; [|cbn [length]; lia|assumption|assumption].
+        unfold cchar_ok. lia.
+Qed.
+
+(* a text that is balanced when read from left to right and whose last item is not a content '/' (which
+   would pair with the '*' of the closing "*/") is a legal body: the side condition on '*' and '/'
+   excludes no comment *)
+Theorem body_of_ok : forall s, balanced 1 (body_of s) = true -> last (body_of s) CNl <> CChar 47 ->
+  body_ok 1 (body_of s) = true.
+Proof. intros s. apply (body_of_ok_len (length s)). lia. Qed.
+
+(* ================================================================== *)
+(* Part 6: the class of the first version of these theorems is included *)
+(* ================================================================== *)
+
+Definition cchar_old (c : N) : bool :=
+  negb (c =? 42) && negb (c =? 47) && negb (c =? 10) && negb (c =? 13).
+Fixpoint body_old (d : Z) (b : list citem) : bool :=
+  match b with
+  | [] => (d =? 1)%Z
+  | CChar c :: b' => cchar_old c && body_old d b'
+  | CNl :: b' => body_old d b'
+  | CCrNl :: b' => body_old d b'
+  | COpen :: b' => (d <? I32_MAX)%Z && body_old (d + 1)%Z b'
+  | CClose :: b' => (2 <=? d)%Z && body_old (d - 1)%Z b'
+  end.
+Definition gitem_old (i : gitem) : bool :=
+  match i with
+  | GLine c _ => forallb lchar_ok c
+  | GBlock b => body_old 1 b
+  | GCr | GLineD _ => false
+  | _ => true
+  end.
+Definition lex_safeb_old (ts : list ptoken) (gs : list gap) : bool :=
+  (length gs =? S (length ts))%nat && forallb tok_okb ts && forallb (forallb gitem_old) gs
+  && forallb (fun g => negb (is_nil g)) (tt_gaps ts (tl gs)).
+
+Lemma body_old_ok : forall b d, body_old d b = true -> body_ok d b = true.
+Proof.
+  induction b as [|i b IH]; intros d H; [exact H|].
+  destruct i as [c| | | |]; cbn [body_old body_ok] in *.
+  - apply andb_prop in H as [Hc Hb]. rewrite (IH d) by assumption.
+    unfold cchar_old in Hc. unfold cchar_ok. lia.
+  - now apply IH.
+  - now apply IH.
+  - apply andb_prop in H as [Hc Hb]. rewrite Hc. now apply IH.
+  - apply andb_prop in H as [Hc Hb]. rewrite Hc. now apply IH.
+Qed.
+
+Lemma gap_old_ok : forall g, forallb gitem_old g = true -> gap_okb g = true.
+Proof.
+  unfold gap_okb. induction g as [|i g IH]; intros H; [reflexivity|].
+  cbn [forallb] in H. apply andb_prop in H as [Hi Hg]. specialize (IH Hg).
+  destruct i as [| | | |c crlf|b| |c]; cbn [gap_ok gitem_okb gitem_old] in *; try discriminate Hi;
+    try exact IH.
+  - rewrite Hi. exact IH.
+  - rewrite (body_old_ok _ _ Hi). exact IH.
+Qed.
+
+Theorem lex_safe_old_sub : forall ts gs, lex_safeb_old ts gs = true -> lex_safe ts gs.
+Proof.
+  intros ts gs H. unfold lex_safeb_old in H. unfold lex_safe, lex_safeb.
+  apply andb_prop in H as [H H4]. apply andb_prop in H as [H H3]. apply andb_prop in H as [H1 H2].
+  rewrite H1, H2, H4. rewrite andb_true_r. cbn [andb].
+  apply forallb_forall. intros g Hin. apply gap_old_ok.
+  rewrite forallb_forall in H3. now apply H3.
 Qed.
